@@ -475,9 +475,38 @@ func c14GRPC(c *Ctx, ix *PkgIndex, m otlpMod) {
 			if !ok {
 				continue
 			}
+			// the first result under this code: a constant, the RetryInfo flag, or `A || flag` / `A && flag` with A folding
+			var classify func(e ast.Expr, depth int) string
+			classify = func(e ast.Expr, depth int) string {
+				e = unparen(e)
+				if v, known := evalConst(info, e, g.withLocals(env)); known && v.Kind() == constant.Bool {
+					return v.String()
+				}
+				if hasInfo[objOf(info, e)] {
+					return "iff-RetryInfo"
+				}
+				if be, isB := e.(*ast.BinaryExpr); isB && depth < 3 && (be.Op == token.LOR || be.Op == token.LAND) {
+					l, r := classify(be.X, depth+1), classify(be.Y, depth+1)
+					unit, zero := "false", "true"
+					if be.Op == token.LAND {
+						unit, zero = "true", "false"
+					}
+					switch {
+					case l == zero || r == zero:
+						return zero
+					case l == unit:
+						return r
+					case r == unit:
+						return l
+					}
+				}
+				return "?"
+			}
 			switch {
 			case len(rs.Results) == 2 && info.Types[rs.Results[0]].Value != nil:
 				got = append(got, info.Types[rs.Results[0]].Value.String())
+			case len(rs.Results) == 2 && classify(rs.Results[0], 0) != "?":
+				got = append(got, classify(rs.Results[0], 0))
 			case len(rs.Results) == 1 && callToDecl(info, td)(unparen(rs.Results[0])):
 				got = append(got, "iff-RetryInfo")
 			case len(rs.Results) == 2 && hasInfo[objOf(info, rs.Results[0])]:
